@@ -6,13 +6,15 @@
 // each input before the call, recovers panics, measures runtime.MemStats.TotalAlloc
 // per call and attributes an over-allocation to its allocation site through the
 // runtime's memory profile; the parent attributes a process death to the last logged
-// index and reads the crashing frame from the child's stderr. Stdlib only; overlaid
+// index and reads the crashing frame from the child's stderr. The child also logs the return
+// of each call; the parent watches which call is open and the child's consumed CPU time, and
+// takes a call that stays open over HangCPU of CPU time (never elapsed time) for one that does
+// not return, once the same happens with the input alone in a fresh child. Stdlib only; overlaid
 // at <module>/internal/verifc34 in every module.
 package verifc34
 
 import (
 	"bufio"
-	"context"
 	"encoding/binary"
 	"encoding/json"
 	"errors"
@@ -212,14 +214,15 @@ type Site struct {
 type Result struct {
 	Idx     int    `json:"i"`
 	Variant int    `json:"v"`
-	Outcome string `json:"o"` // ok | err | panic | overalloc | death | timeout
+	Outcome string `json:"o"` // ok | err | panic | overalloc | death | death_unattributed | timeout | hang | hang_not_investigated
 	Items   int    `json:"n,omitempty"`
 	Err     string `json:"e,omitempty"`
 	Msg     string `json:"m,omitempty"` // panic value / fatal error line
 	Alloc   uint64 `json:"a,omitempty"`
-	Micros  int64  `json:"us,omitempty"` // wall time of the call incl. site attribution
+	Micros  int64  `json:"us,omitempty"`  // wall time of the call incl. site attribution
 	CallUs  int64  `json:"cus,omitempty"` // wall time of the call alone
 	Site    *Site  `json:"s,omitempty"`
+	CPUMs   int64  `json:"cpu_ms,omitempty"` // hang: CPU time the child consumed inside the call before it was killed
 }
 
 // TargetFn runs the code under test once. items = how many records/entries/batches it returned.
@@ -449,6 +452,17 @@ func ChildMain(targets []Target) error {
 	if tg == nil {
 		return fmt.Errorf("unknown target %q", os.Getenv("C34_CHILD_TARGET"))
 	}
+	// a child whose parent is gone (go test timeout, kill) must not outlive it: a call that never
+	// returns would otherwise spin on this machine for ever
+	go func(parent int) {
+		for {
+			time.Sleep(time.Second)
+			if os.Getppid() != parent {
+				os.Exit(3)
+			}
+		}
+	}(os.Getppid())
+	_ = syscall.Setrlimit(syscall.RLIMIT_CORE, &syscall.Rlimit{}) // GOTRACEBACK=crash children abort: no core files
 	if lim, _ := strconv.ParseUint(os.Getenv("C34_CHILD_AS_LIMIT"), 10, 64); lim > 0 {
 		// backstop: an allocation the machine cannot afford fails here instead of taking the box down
 		_ = syscall.Setrlimit(syscall.RLIMIT_AS, &syscall.Rlimit{Cur: lim, Max: lim})
@@ -519,6 +533,7 @@ func ChildMain(targets []Target) error {
 					}
 				}
 			}()
+			fmt.Fprintf(prog, "r %d %d\n", idx, v) // the call returned (or its panic was recovered)
 			res.CallUs = time.Since(t0).Microseconds()
 			runtime.ReadMemStats(&ms)
 			res.Alloc = ms.TotalAlloc - a0
@@ -544,14 +559,195 @@ type Config struct {
 	Dir       string // work dir for progress/out/stderr files
 	ChildTest string // -test.run pattern of the child entry point
 	Batch     int    // inputs per child
+	Limit     int    // run only the first Limit inputs of the container (0 = all)
 	ASLimit   uint64 // RLIMIT_AS of the child, 0 = none
 	Timeout   time.Duration
 	MaxDeaths int // stop re-spawning after this many deaths (rest reported as skipped)
+	// HangCPU is the CPU time (user+system of the whole child, read from /proc/<pid>/stat) one call may
+	// burn without returning before it is taken for a call that does not return. 0 = DefaultHangCPU.
+	HangCPU time.Duration
+	// HangBudget is the number of hang investigations (kill + re-run alone) still allowed; shared by the
+	// targets of a leg through the pointer. nil = DefaultHangBudget for this run alone.
+	HangBudget *int
+	// MaxTimeouts stops the run after this many wall-clock watchdog firings (each decides nothing and
+	// costs Timeout). 0 = 2.
+	MaxTimeouts int
+}
+
+const (
+	// DefaultHangCPU: inputs are at most MaxInput (64 KiB) bytes; a returning call takes micro- to
+	// milliseconds of CPU, the slowest ones (tens of MiB allocated) well under a second. 20 s of CPU
+	// time is > 300 us per input byte. CPU time, unlike wall time, does not grow with machine load.
+	DefaultHangCPU    = 20 * time.Second
+	DefaultHangBudget = 3
+)
+
+func (c Config) hangCPU() time.Duration {
+	if c.HangCPU == 0 {
+		return DefaultHangCPU
+	}
+	return c.HangCPU
 }
 
 // Stats of a run.
 type Stats struct {
 	Children, Deaths, Timeouts, Skipped, FlakyDeaths, Unattributed int
+	HangCandidates, Hangs, HangsNotReproduced, HangsOverBudget     int
+}
+
+// procCPU returns user+system CPU time consumed so far by all threads of a process.
+func procCPU(pid int) (time.Duration, bool) {
+	b, err := os.ReadFile("/proc/" + strconv.Itoa(pid) + "/stat")
+	if err != nil {
+		return 0, false
+	}
+	s := string(b)
+	i := strings.LastIndexByte(s, ')') // the command name may hold spaces and parentheses
+	if i < 0 {
+		return 0, false
+	}
+	f := strings.Fields(s[i+1:]) // f[0] = field 3 (state); utime = field 14, stime = field 15
+	if len(f) < 13 {
+		return 0, false
+	}
+	ut, e1 := strconv.ParseInt(f[11], 10, 64)
+	st, e2 := strconv.ParseInt(f[12], 10, 64)
+	if e1 != nil || e2 != nil {
+		return 0, false
+	}
+	return time.Duration(ut+st) * (time.Second / 100), true // USER_HZ is 100 on Linux
+}
+
+// progressLines returns the complete lines at the end of a progress file (at most the last 4 KiB).
+func progressLines(path string) []string {
+	f, err := os.Open(path)
+	if err != nil {
+		return nil
+	}
+	defer f.Close()
+	st, err := f.Stat()
+	if err != nil || st.Size() == 0 {
+		return nil
+	}
+	off := st.Size() - 4096
+	if off < 0 {
+		off = 0
+	}
+	buf := make([]byte, st.Size()-off)
+	n, _ := f.ReadAt(buf, off)
+	txt := string(buf[:n])
+	if j := strings.LastIndexByte(txt, '\n'); j >= 0 {
+		txt = txt[:j] // drop a torn last line
+	} else {
+		return nil
+	}
+	ls := strings.Split(txt, "\n")
+	if off > 0 && len(ls) > 0 {
+		ls = ls[1:] // the first one may have lost its head
+	}
+	return ls
+}
+
+// inCall reports the (index, variant) the child logged before a call that has not been logged as returned.
+func inCall(path string) (int, int, bool) {
+	ls := progressLines(path)
+	if len(ls) == 0 || strings.HasPrefix(ls[len(ls)-1], "r") {
+		return 0, 0, false
+	}
+	var i, v int
+	if _, err := fmt.Sscanf(ls[len(ls)-1], "%d %d", &i, &v); err != nil {
+		return 0, 0, false
+	}
+	return i, v, true
+}
+
+type childEnd struct {
+	runErr   error
+	timedOut bool          // the wall-clock watchdog fired: decides nothing
+	hang     bool          // one call burnt HangCPU of CPU time without returning
+	hi, hv   int           // that call
+	hangCPU  time.Duration // CPU time observed inside it (a lower bound)
+	cpu      time.Duration // CPU time of the child over its whole life
+}
+
+// runChild starts one child and watches it: every 100 ms it reads which call the child is in (the
+// line logged before the call, no return line after it) and the CPU time the child has consumed. The
+// decision "does not return" is made on CPU time accumulated while the same call stays open, never on
+// elapsed time; the polling interval only bounds how late the decision is noticed. dump: ask the
+// runtime for the goroutine stacks (SIGQUIT under GOTRACEBACK=crash) before killing a hanging child.
+func runChild(cfg Config, env []string, errp string, prog string, dump bool) (childEnd, error) {
+	var end childEnd
+	cmd := exec.Command(os.Args[0], "-test.run="+cfg.ChildTest, "-test.count=1", "-test.timeout=0")
+	cmd.Env = env
+	ef, err := os.Create(errp)
+	if err != nil {
+		return end, err
+	}
+	defer ef.Close()
+	cmd.Stdout, cmd.Stderr = ef, ef
+	if err := cmd.Start(); err != nil {
+		return end, err
+	}
+	done := make(chan error, 1)
+	go func() { done <- cmd.Wait() }()
+	finish := func(e error) {
+		end.runErr = e
+		if ps := cmd.ProcessState; ps != nil {
+			end.cpu = ps.UserTime() + ps.SystemTime()
+		}
+	}
+	kill := func() {
+		_ = cmd.Process.Kill()
+		finish(<-done)
+	}
+	tick := time.NewTicker(100 * time.Millisecond)
+	defer tick.Stop()
+	watchdog := time.NewTimer(cfg.Timeout)
+	defer watchdog.Stop()
+	have := false
+	var ci, cv int
+	var cpu0 time.Duration
+	for {
+		select {
+		case e := <-done:
+			finish(e)
+			return end, nil
+		case <-watchdog.C:
+			end.timedOut = true
+			kill()
+			return end, nil
+		case <-tick.C:
+			i, v, open := inCall(prog)
+			if !open {
+				have = false
+				continue
+			}
+			cpu, ok := procCPU(cmd.Process.Pid)
+			if !ok {
+				continue
+			}
+			if !have || i != ci || v != cv {
+				// first sight of this call: CPU spent in it before now is not counted
+				have, ci, cv, cpu0 = true, i, v, cpu
+				continue
+			}
+			if cpu-cpu0 < cfg.HangCPU {
+				continue
+			}
+			end.hang, end.hi, end.hv, end.hangCPU = true, i, v, cpu-cpu0
+			if dump {
+				_ = cmd.Process.Signal(syscall.SIGQUIT)
+				select {
+				case e := <-done:
+					finish(e)
+					return end, nil
+				case <-time.After(20 * time.Second): // scheduling aid only: the dump is informational
+				}
+			}
+			kill()
+			return end, nil
+		}
+	}
 }
 
 // Run executes every input of the corpus against the target in child processes.
@@ -560,6 +756,9 @@ func Run(cfg Config) ([]Result, Stats, error) {
 	n, err := Count(cfg.Corpus)
 	if err != nil {
 		return nil, st, err
+	}
+	if cfg.Limit > 0 && n > cfg.Limit {
+		n = cfg.Limit
 	}
 	if err := os.MkdirAll(cfg.Dir, 0o755); err != nil {
 		return nil, st, err
@@ -573,9 +772,21 @@ func Run(cfg Config) ([]Result, Stats, error) {
 	if cfg.Timeout == 0 {
 		cfg.Timeout = 5 * time.Minute
 	}
+	if cfg.HangCPU == 0 {
+		cfg.HangCPU = DefaultHangCPU
+	}
+	if cfg.HangBudget == nil {
+		b := DefaultHangBudget
+		cfg.HangBudget = &b
+	}
+	if cfg.MaxTimeouts == 0 {
+		cfg.MaxTimeouts = 2
+	}
 	var results []Result
 	from, fromVar := 0, 0
-	single := false // re-run exactly one call alone (a death the traceback does not pin on the code under test)
+	single := false  // re-run exactly one call alone (a death the traceback does not pin on the code under test, or a hang candidate)
+	confirm := false // the single call is the confirmation run of a hang candidate
+	var firstHangCPU time.Duration
 	retried := map[[2]int]bool{}
 	next := func(i, v int) (int, int) {
 		if v+1 >= cfg.Variants {
@@ -596,34 +807,61 @@ func Run(cfg Config) ([]Result, Stats, error) {
 		prog := filepath.Join(cfg.Dir, tag+".progress")
 		outp := filepath.Join(cfg.Dir, tag+".out")
 		errp := filepath.Join(cfg.Dir, tag+".stderr")
-		ctx, cancel := context.WithTimeout(context.Background(), cfg.Timeout)
-		cmd := exec.CommandContext(ctx, os.Args[0], "-test.run="+cfg.ChildTest, "-test.count=1", "-test.timeout=0")
-		cmd.Env = append(os.Environ(),
+		tb := "all"
+		if confirm {
+			tb = "crash" // on SIGQUIT every thread dumps the goroutine it is running: shows where the call spins
+		}
+		env := append(os.Environ(),
 			"C34_CHILD_CORPUS="+cfg.Corpus, "C34_CHILD_TARGET="+cfg.Target,
 			"C34_CHILD_FROM="+strconv.Itoa(from), "C34_CHILD_FROM_VARIANT="+strconv.Itoa(fromVar), "C34_CHILD_TO="+strconv.Itoa(to),
 			"C34_CHILD_ONE_CALL="+one, "C34_CHILD_PROGRESS="+prog, "C34_CHILD_OUT="+outp, "C34_CHILD_AS_LIMIT="+strconv.FormatUint(cfg.ASLimit, 10),
-			"GOTRACEBACK=all", "GOMAXPROCS=4")
-		ef, err := os.Create(errp)
+			"GOTRACEBACK="+tb, "GOMAXPROCS=4")
+		end, err := runChild(cfg, env, errp, prog, confirm)
 		if err != nil {
-			cancel()
 			return results, st, err
 		}
-		cmd.Stdout, cmd.Stderr = ef, ef
-		runErr := cmd.Run()
-		timedOut := ctx.Err() != nil
-		cancel()
-		ef.Close()
+		runErr, timedOut := end.runErr, end.timedOut
 		st.Children++
 		got, perr := readResults(outp)
 		if perr != nil {
 			return results, st, perr
 		}
 		results = append(results, got...)
+		if end.hang {
+			// one call burnt HangCPU of CPU time without returning
+			if !confirm {
+				st.HangCandidates++
+				if *cfg.HangBudget <= 0 {
+					// no investigation left: decided nothing for this input nor for the ones behind it
+					st.HangsOverBudget++
+					results = append(results, Result{Idx: end.hi, Variant: end.hv, Outcome: "hang_not_investigated", CPUMs: end.hangCPU.Milliseconds()})
+					from, fromVar = next(end.hi, end.hv)
+					st.Skipped = n - from
+					break
+				}
+				*cfg.HangBudget--
+				from, fromVar, single, confirm, firstHangCPU = end.hi, end.hv, true, true, end.hangCPU
+				continue
+			}
+			// alone in a fresh child it again consumed HangCPU without returning: the input does it
+			txt, _ := os.ReadFile(errp)
+			site, _ := siteFromTraceback(string(txt))
+			st.Hangs++
+			results = append(results, Result{Idx: end.hi, Variant: end.hv, Outcome: "hang", Site: site, CPUMs: end.hangCPU.Milliseconds(),
+				Msg: fmt.Sprintf("the call had not returned after %.1f s of CPU time in a child running a batch of inputs, and again not after %.1f s of CPU time alone in a fresh child (killed both times)", firstHangCPU.Seconds(), end.hangCPU.Seconds())})
+			single, confirm = false, false
+			from, fromVar = next(end.hi, end.hv)
+			continue
+		}
 		if runErr == nil {
 			if single {
-				single = false
+				if confirm {
+					st.HangsNotReproduced++ // its result (ok/err) is in got
+				} else {
+					st.FlakyDeaths++
+				}
+				single, confirm = false, false
 				from, fromVar = next(from, fromVar)
-				st.FlakyDeaths++
 				continue
 			}
 			from, fromVar = to, 0
@@ -641,8 +879,12 @@ func Run(cfg Config) ([]Result, Stats, error) {
 			tail, _ := os.ReadFile(errp)
 			return results, st, fmt.Errorf("crashbox child for %s exited abnormally after input %d: %v\n%s", cfg.Target, li, runErr, lastBytes(tail, 1500))
 		}
+		if confirm {
+			st.HangsNotReproduced++ // the confirmation run ended otherwise (death / watchdog): judged as such below
+			confirm = false
+		}
 		txt, _ := os.ReadFile(errp)
-		res := Result{Idx: li, Variant: lv, Outcome: "death"}
+		res := Result{Idx: li, Variant: lv, Outcome: "death", CPUMs: end.cpu.Milliseconds()}
 		if timedOut {
 			res.Outcome = "timeout"
 			st.Timeouts++
@@ -673,7 +915,7 @@ func Run(cfg Config) ([]Result, Stats, error) {
 		}
 		results = append(results, res)
 		from, fromVar = next(li, lv)
-		if cfg.MaxDeaths > 0 && st.Deaths+st.Timeouts >= cfg.MaxDeaths && from < n {
+		if from < n && ((cfg.MaxDeaths > 0 && st.Deaths+st.Timeouts >= cfg.MaxDeaths) || st.Timeouts >= cfg.MaxTimeouts) {
 			st.Skipped = n - from
 			break
 		}
@@ -710,20 +952,24 @@ func readResults(path string) ([]Result, error) {
 	return out, sc.Err()
 }
 
+// lastProgress returns the last (index, variant) logged before a call ("r ..." lines mark returns).
 func lastProgress(path string) (int, int, bool) {
 	b, err := os.ReadFile(path)
 	if err != nil {
 		return 0, 0, false
 	}
 	ls := strings.Split(strings.TrimSpace(string(b)), "\n")
-	if len(ls) == 0 || ls[len(ls)-1] == "" {
-		return 0, 0, false
+	for k := len(ls) - 1; k >= 0; k-- {
+		if ls[k] == "" || strings.HasPrefix(ls[k], "r") {
+			continue
+		}
+		var i, v int
+		if _, err := fmt.Sscanf(ls[k], "%d %d", &i, &v); err != nil {
+			return 0, 0, false
+		}
+		return i, v, true
 	}
-	var i, v int
-	if _, err := fmt.Sscanf(ls[len(ls)-1], "%d %d", &i, &v); err != nil {
-		return 0, 0, false
-	}
-	return i, v, true
+	return 0, 0, false
 }
 
 // Finding is a violation of the property derived from a Result.
@@ -733,28 +979,38 @@ type Finding struct {
 	Replay  map[string]any
 }
 
-// Judge turns a result into a finding (or nil): a panic, a process death, or more than
-// AllocLimit bytes allocated by one call on an input of at most MaxInput bytes.
-func Judge(target string, res Result, in *Input) *Finding {
+// Judge turns a result into a finding (or nil): a panic, a process death, more than AllocLimit bytes
+// allocated by one call on an input of at most MaxInput bytes, or a call that does not return
+// (outcome "hang": HangCPU of CPU time consumed inside the one call, twice, the second time alone
+// in a fresh child). decoder names the code under test (sql, iceberg, pitr, ...), fn the entry point.
+func Judge(decoder, fn string, res Result, in *Input) *Finding {
 	switch res.Outcome {
-	case "panic", "death", "overalloc":
+	case "panic", "death", "overalloc", "hang":
 	default:
 		return nil
 	}
-	cls := target + "." + SiteClass(res.Site)
-	what := map[string]string{"panic": "panics", "death": "kills the process", "overalloc": fmt.Sprintf("allocates %d MiB in one call", res.Alloc>>20)}[res.Outcome]
 	where := "unknown site"
 	if res.Site != nil {
 		where = fmt.Sprintf("%s (%s:%d) `%s`", res.Site.Func, strings.TrimPrefix(res.Site.File, repoRoot()), res.Site.Line, res.Site.Text)
 	}
-	rp := map[string]any{"target": target, "variant": res.Variant, "outcome": res.Outcome, "message": res.Msg, "alloc_bytes": res.Alloc, "site": res.Site, "input_label": in.Label, "input_len": len(in.Data), "input_index": res.Idx}
-	if len(in.Data) <= 4096 {
+	rp := map[string]any{"target": decoder, "entry_point": fn, "variant": res.Variant, "outcome": res.Outcome, "message": res.Msg, "alloc_bytes": res.Alloc, "site": res.Site, "input_label": in.Label, "input_len": len(in.Data), "input_index": res.Idx}
+	if len(in.Data) <= 4096 || res.Outcome == "hang" {
 		rp["input_bytes"] = in.Data
 		if len(in.Aux) > 0 && len(in.Aux) <= 1024 {
 			rp["aux_bytes"] = in.Aux
 		}
 	}
-	return &Finding{Class: cls, Summary: fmt.Sprintf("%s %s on a %d-byte input [%s] at %s: %s", target, what, len(in.Data), in.Label, where, res.Msg), Replay: rp}
+	if res.Outcome == "hang" {
+		// the class names the decoder and its entry point only: where a spinning goroutine happens to be
+		// when it is sampled differs from run to run, so the sampled frame is given as information
+		rp["cpu_ms_in_call_when_killed"] = res.CPUMs
+		rp["sampled_frame_when_killed"] = res.Site
+		return &Finding{Class: "decoder_does_not_return:" + decoder + "." + fn,
+			Summary: fmt.Sprintf("%s %s does not return on a %d-byte input [%s]: %s; goroutine sampled at %s", decoder, fn, len(in.Data), in.Label, res.Msg, where), Replay: rp}
+	}
+	cls := decoder + "." + SiteClass(res.Site)
+	what := map[string]string{"panic": "panics", "death": "kills the process", "overalloc": fmt.Sprintf("allocates %d MiB in one call", res.Alloc>>20)}[res.Outcome]
+	return &Finding{Class: cls, Summary: fmt.Sprintf("%s %s on a %d-byte input [%s] at %s: %s", decoder, what, len(in.Data), in.Label, where, res.Msg), Replay: rp}
 }
 
 // Reporter is the part of *verifkit.Run the driver needs (the kit's import path differs per module).
@@ -776,16 +1032,27 @@ func Drive(r Reporter, cfg Config, class string, nontrivial func(*Input) bool) e
 	r.Count(cfg.Target+"_children", int64(st.Children))
 	r.Count(cfg.Target+"_child_deaths", int64(st.Deaths))
 	r.Count(cfg.Target+"_child_deaths_not_reproduced_alone", int64(st.FlakyDeaths))
+	r.Count(cfg.Target+"_hang_candidates", int64(st.HangCandidates))
+	r.Count(cfg.Target+"_hangs_confirmed_alone", int64(st.Hangs))
 	if st.Timeouts > 0 {
-		r.Inconclusive(fmt.Sprintf("%s: %d crashbox children hit the %s watchdog", cfg.Target, st.Timeouts, cfg.Timeout))
+		r.Inconclusive(fmt.Sprintf("%s: %d crashbox children hit the %s wall-clock watchdog without one call having consumed %s of CPU time", cfg.Target, st.Timeouts, cfg.Timeout, cfg.hangCPU()))
+	}
+	if st.HangsNotReproduced > 0 {
+		r.Inconclusive(fmt.Sprintf("%s: %d calls consumed %s of CPU time without returning in a child running a batch of inputs, but not when re-run alone in a fresh child; not attributed", cfg.Target, st.HangsNotReproduced, cfg.hangCPU()))
+	}
+	if st.HangsOverBudget > 0 {
+		r.Inconclusive(fmt.Sprintf("%s: a call consumed %s of CPU time without returning after the leg's hang investigations were used up; killed, not confirmed, not attributed", cfg.Target, cfg.hangCPU()))
 	}
 	if st.Unattributed > 0 {
 		r.Inconclusive(fmt.Sprintf("%s: %d inputs killed the child twice without a frame of the code under test in the crash dump (see scratch dir); not attributed", cfg.Target, st.Unattributed))
 	}
 	if st.Skipped > 0 {
-		r.Inconclusive(fmt.Sprintf("%s: %d inputs not run after %d child deaths", cfg.Target, st.Skipped, st.Deaths))
+		r.Inconclusive(fmt.Sprintf("%s: %d inputs not run after %d child deaths, %d watchdog firings, %d confirmed hangs", cfg.Target, st.Skipped, st.Deaths, st.Timeouts, st.Hangs))
 	}
 	n, _ := Count(cfg.Corpus)
+	if cfg.Limit > 0 && n > cfg.Limit {
+		n = cfg.Limit
+	}
 	const chunk = 2000
 	ri := 0
 	sampled := 0
@@ -808,7 +1075,7 @@ func Drive(r Reporter, cfg Config, class string, nontrivial func(*Input) bool) e
 			if (res.Outcome == "ok" || res.Outcome == "err") && res.Alloc > maxOK {
 				maxOK = res.Alloc
 			}
-			if f := Judge(class, res, in); f != nil {
+			if f := Judge(class, cfg.Target, res, in); f != nil {
 				r.Violation(f.Class, f.Summary, f.Replay)
 			} else if sampled < 2 && nt {
 				sampled++
